@@ -3,7 +3,7 @@ SPECIFICATION Spec
 CONSTANTS
   Threads = {"t1", "t2"}
   Fixed = {}
-  JudgeHandedOut = FALSE
+  JudgeHandedOut = TRUE
   OnlyComps = {}
   EmitObligations = FALSE
 INVARIANTS TypeOK Lockset HelperGuard NoConcurrentConflict Balanced
